@@ -106,6 +106,13 @@ Theorem C16_not_modified_iff : forall rt files path ims rng fp f size mtime,
 Proof. exact not_modified_iff. Qed.
 Print Assumptions C16_not_modified_iff.
 
+Theorem C16_not_modified_oracle : forall rt files path ims rng fp f size mtime,
+  sanitize (length (r_prefix rt)) (has_fb rt) (r_dir rt) path = Some fp ->
+  opened_file rt files fp = Some (f, (size, mtime)) ->
+  (serve rt files false path ims rng = R304 f <-> not_modified mtime ims = true).
+Proof. exact not_modified_oracle. Qed.
+Print Assumptions C16_not_modified_oracle.
+
 (* the oracle evaluated on the implementation accepts the model for every size and Range *)
 Theorem C16_response_ok_sound : forall file size rng,
   0 <= size -> rng_ok rng = true ->
